@@ -60,13 +60,15 @@ open Scenic.Gen.RewriteData
 /-- side condition: only built-in names are lifted (hypothesis of the identity theorem) -/
 theorem gen_cfg_ok : CfgOK cfg := CfgOK_of cfg (by decide)
 
-/-- side condition: the names and wrappers are the documented ones
-    (`ego`/`workspace`/`globalParameters` accessors; `str`/`int`/`float` lifted; star wrappers; `Object`; property table) -/
+/-- side condition: the names, lifted targets and wrappers are exactly the documented ones
+    (`ego`/`workspace`/`globalParameters` accessors; `str`/`int`/`float` → `_toStrScenic`/`_toIntScenic`/`_toFloatScenic`;
+    star wrappers `callWithStarArgs`/`wrapStarredValue`; `Object`; property table).  Set literals and the renaming chain are
+    emitted sorted by the translator, so the order of the source does not matter. -/
 theorem gen_cfg_documented :
     cfg.tracked = ["ego", "workspace"] ∧ cfg.globalParams = "globalParameters" ∧
-    cfg.builtin = ["globalParameters", "str", "int", "float"] ∧
-    cfg.lifted.map Prod.fst = ["str", "float", "int"] ∧
-    (cfg.lifted.map Prod.snd).all (fun s => !cfg.builtin.contains s && !cfg.tracked.contains s) = true ∧
+    cfg.builtin = ["float", "globalParameters", "int", "str"] ∧
+    cfg.lifted = [("float", "_toFloatScenic"), ("int", "_toIntScenic"), ("str", "_toStrScenic")] ∧
+    cfg.wrapStar = "wrapStarredValue" ∧ cfg.callStar = "callWithStarArgs" ∧
     cfg.defaultBase = "Object" ∧ cfg.propTable = "_scenic_properties" ∧ cfg.annAssignRejected = true := by decide
 
 theorem scenic_compile_identity_off_triggers (t : T) (hloc : located t = true) (h : noTrigger cfg t = true) :
